@@ -59,7 +59,10 @@ let () =
            let b = res_string (read_data true !file !zeof m2 st sz (rs ())) in
            let c = res_string (copy_data true !file !zeof m1 st sz (rs ())) in
            let d = res_string (copy_data true !file !zeof m2 st sz (rs ())) in
-           if a = mr && b = lr && c = mc && d = lc then Printf.printf "OK %s\n" id
+           let pl = if int_of_n m2.lazyDataSize > 0 then m2.lazyDataSize else n_of_int (L.length m1.coq_Data) in
+           let hyp = C08Spec.box_in_file !file m1.coq_StartPos m1.coq_LargeSize pl
+                     && C08Spec.valid_range m1.coq_StartPos m1.coq_LargeSize pl st sz in
+           if a = mr && b = lr && c = mc && d = lc then Printf.printf "OK %s%s\n" id (if hyp then " H" else "")
            else Printf.printf "MISMATCH %s range model=%s|%s|%s|%s\n" id a b c d
          | _ -> Printf.printf "MISMATCH %s range no-model-context\n" id)
       | ["H"; id; lenc; menc] ->
@@ -73,7 +76,7 @@ let () =
         tb := { sample_sizes = L.map n_of_int (ints_of_csv sizes); uniform_size = n_of_int (int_of_string uni);
                 chunk_offsets = L.map n_of_int (ints_of_csv offs) };
         Printf.printf "OK %s\n" id
-      | ["S"; id; a; b; wl; orc; chunks; mr; lr] ->
+      | ["S"; id; valid; a; b; wl; orc; chunks; mr; lr] ->
         (match !mm, !ml with
          | Some m1, Some m2 ->
            let a = n_of_int (int_of_string a) and b = n_of_int (int_of_string b) in
@@ -82,7 +85,15 @@ let () =
            let rs () = Some { rpos = n_of_int 0; rorc = orc_of orc } in
            let x = res_string (copy_sample_data true !file !zeof m1 (rs ()) !tb cs a b ws) in
            let y = res_string (copy_sample_data true !file !zeof m2 (rs ()) !tb cs a b ws) in
-           if x = mr && y = lr then Printf.printf "OK %s\n" id
-           else Printf.printf "MISMATCH %s samples model_mem=%s model_lazy=%s\n" id x y
+           (* hypotheses of C08_copy_samples evaluated on what the implementation produced *)
+           let pl = if int_of_n m2.lazyDataSize > 0 then m2.lazyDataSize else n_of_int (L.length m1.coq_Data) in
+           let hyp = C08Spec.box_in_file !file m1.coq_StartPos m1.coq_LargeSize pl
+                     && C08Spec.chunks_cover a b cs
+                     && C08Spec.chunks_in_payload !tb m1.coq_StartPos m1.coq_LargeSize pl cs in
+           let exp = "o:" ^ hex_of_bytes (C08Spec.expected_samples !file !tb cs a b) in
+           if x <> mr || y <> lr then Printf.printf "MISMATCH %s samples model_mem=%s model_lazy=%s\n" id x y
+           else if valid = "1" && not hyp then Printf.printf "MISMATCH %s samples hypotheses-of-C08_copy_samples-not-met-by-implementation-chunks\n" id
+           else if hyp && (exp <> mr || exp <> lr) then Printf.printf "MISMATCH %s samples expected_samples=%s\n" id exp
+           else Printf.printf "OK %s%s\n" id (if hyp then " H" else "")
          | _ -> Printf.printf "MISMATCH %s samples no-model-context\n" id)
       | _ -> Printf.printf "BADLINE %s\n" line)
